@@ -4,6 +4,7 @@ import Verif.C09.Consistent
 import Verif.C09.ParserLemmas
 import Verif.C09.Spelling
 import Verif.C09.AstEq
+import Verif.C09.Structural
 /-
 C09 — Pattern bindings: alternatives are atomic, names bind consistently.
 
@@ -14,16 +15,18 @@ Property theorems over the model of pattern/match.go + pattern/parser.go (Model.
                        the specification's successful path (immutable environments: Or = first
                        alternative that succeeds from the incoming environment, Not = environment
                        unchanged). `impl_fail_spec`: and it fails exactly when the specification does.
+* `visible_names`      only names that occur outside of every `Not` operand can be visible afterwards.
 * `repeat_consistent`  the final State is one assignment under which every binding occurrence on
                        the successful path agrees (`Sat`); `astEq_sound` (AstEq.lean) says what
-                       agreeing means: structural equality up to the transparent wrappers.
+                       agreeing means: structural equality up to the transparent wrappers (`norm`);
+                       `repeat_structurally_equal` combines the two (`SatN`, Structural.lean).
 * `spellings_agree`    desugaring the shorthand (`x`, `x@(…)`) into the explicit Binding form
                        changes neither Pattern.Bindings nor any match result.
 * `parse_wfIdx`        the parser's output satisfies the index hypothesis of the theorems above.
 * `no_panic`           "binding already created" is unreachable for well-formed patterns.
 
 Helper lemmas: Lemmas.lean (masks, pop, frame invariant), Refine.lean (`impl_rel`),
-NoPanic.lean, Consistent.lean, ParserLemmas.lean, Spelling.lean.
+NoPanic.lean, Consistent.lean, AstEq.lean, Structural.lean, ParserLemmas.lean, Spelling.lean.
 -/
 namespace Verif.C09
 
@@ -91,6 +94,28 @@ def exAplusGx : Tree :=
 example : (match implMatch ["f"] exRow11 exAplusGx with
     | .done true σ n => (σ "f").isNone && n == 1 | _ => false) = true := by rfl
 
+/-- A name bound after a successful match occurs in the pattern outside of every `Not` operand:
+whatever a `Not` operand (or a failed alternative, by `impl_refines_spec`) bound is gone. -/
+theorem visible_names (mp : List String) (p : Pat) (t : Tree) (σ : Env) (n : Nat)
+    (hwf : wfIdx mp p = true) (h : implMatch mp p t = .done true σ n) :
+    ∀ x, σ x ≠ none → x ∈ names p := by
+  have hs := impl_refines_spec mp p t σ n hwf h
+  unfold specMatch at hs
+  cases hr : spec p t Env.empty with
+  | none => simp [hr] at hs
+  | some r =>
+    obtain ⟨v, e⟩ := r
+    simp only [hr, Option.some.injEq] at hs
+    subst hs
+    intro x hx
+    apply Classical.byContradiction
+    intro hnot
+    exact hx (by rw [(spec_ext p t Env.empty v e hr).2 x hnot]; rfl)
+
+/-! Non-vacuity: in row 11 `f` occurs only under `Not`: `names` is empty although `f` is a name of
+the pattern. -/
+example : names exRow11 = [] ∧ allNames exRow11 = ["f"] := by decide
+
 /-! ### names bind consistently -/
 
 /-- The final State of a successful match is a single assignment under which every binding
@@ -119,6 +144,22 @@ example : (match implMatch ["x"] exXX (exCall "a" "a") with
     | .done true σ _ => (σ "x").isSome | _ => false) = true := by rfl
 example : (match implMatch ["x"] exXX (exCall "a" "b") with
     | .done false _ _ => true | _ => false) = true := by rfl
+
+/-- The same with "agrees" spelled out: along the successful path every occurrence of a bare name
+`x` saw a subtree with the same normal form as the one value `σ x` (`SatN`, Structural.lean). -/
+theorem repeat_structurally_equal (mp : List String) (p : Pat) (t : Tree) (σ : Env) (n : Nat)
+    (hwf : wfIdx mp p = true) (hsf : selfFree p = true)
+    (h : implMatch mp p t = .done true σ n) : ∃ v, SatN σ p t v := by
+  obtain ⟨v, hv⟩ := repeat_consistent mp p t σ n hwf hsf h
+  exact ⟨v, Sat.toN σ p t v hv⟩
+
+/-! Non-vacuity: for `(CallExpr _ [x x])` on `f(a, (a))` the match succeeds, `σ x` is `a`, and `SatN`
+unfolds to: both arguments have the normal form of `σ x`. -/
+def exCallP : Tree :=
+  .node "CallExpr" .E ["Fun", "Args"] [exIdent "f", .slice .E false [exIdent "a", .node "ParenExpr" .E ["X"] [exIdent "a"]]]
+example : (match implMatch ["x"] exXX exCallP with
+    | .done true σ _ => (match σ "x" with | some (.node "Ident" _ _ [.str "a"]) => true | _ => false)
+    | _ => false) = true := by rfl
 
 /-- (proved in AstEq.lean) restated: what "agrees" means for a repeated name — the stored subtree
 and the candidate have the same normal form `norm` (transparent wrappers ParenExpr / ExprStmt /
